@@ -1,9 +1,135 @@
+/-
+  ops of group `include` (C25):
+
+    inc     <maxdepth> <fs> <mainhex>             items of `fs::Parser` (model: the stack machine;
+                                                  spec: the recursive include semantics)
+    incflat <maxdepth> <fs> <mainhex> <flathex>   "textual inclusion": the records of the file
+                                                  tree = the records of the flattened single file
+                                                  (`ok same` / `differ …`; spec: `ok same`)
+
+  `<fs>`: `pathhex=contenthex,…` with canonical paths (relative to the working directory of the
+  harness, or absolute).  Files are printed by canonical path:
+  `rec:<pathhex>:<line>:<ownerhex>:<ttl>:<class>:<type>:<rdatahex>`,
+  `err:<Syntax|IncludesTooDeep|FailedToOpenInclude|InvalidPath>@<pathhex>:<line>`.
+-/
 import QV.Driver.Util
+import QV.Driver.Zonefile
+import QV.Model.Include
+import QV.Spec.Include
 
 namespace QV.Driver
-open QV
+open QV QV.ZF QV.Inc
 
-/-- ops of group `include` — stub (not built yet) -/
-def includeHandler : Handler := fun _ _ => none
+def parseFs (s : String) : Option FS :=
+  if s = "-" then some [] else
+  (s.splitOn ",").mapM fun ent =>
+    match ent.splitOn "=" with
+    | [p, c] => do
+      let pb ← unhex p
+      let cb ← unhex c
+      pure (pb.toList, cb.toList)
+    | _ => none
+
+abbrev Key := Bool × List (List UInt8)
+
+def showKey (k : Key) : String :=
+  let body := ([47] : List UInt8).intercalate k.2
+  hexOfList (if k.1 then 47 :: body else body)
+
+/-- canonical key of a path as the OS resolves it -/
+def canonKey (fs : FS) (p : Path) : Option Key :=
+  let abs := p.head? == some 47
+  (walk fs abs (splitComps p) []).map fun c => (abs, c)
+
+def showPath (fs : FS) (p : Path) : String :=
+  match canonKey fs p with
+  | some k => showKey k
+  | none => "?" ++ hexOfList p
+
+def showRec (r : Rec) : String := s!"{hexOfList r.owner}:{r.ttl}:{r.cls}:{r.ty}:{hexOfList r.rdata}"
+
+def showFsKind : FsErrKind → String
+  | .Syntax _ => "Syntax"
+  | .IncludesTooDeep => "IncludesTooDeep"
+  | .InvalidPath => "InvalidPath"
+  | .FailedToOpenInclude => "FailedToOpenInclude"
+  | .ModelStuck => "ModelStuck"
+
+def joinItems (l : List String) : String := if l.isEmpty then "ok -" else "ok " ++ ";".intercalate l
+
+def showFsYields (fs : FS) (ys : List FsYield) : String :=
+  if ys.any (fun y => y == .panic) then "panic"
+  else joinItems (ys.map fun
+    | .record p line r => s!"rec:{showPath fs p}:{line}:{showRec r}"
+    | .err p k line => s!"err:{showFsKind k}@{showPath fs p}:{line}"
+    | .panic => "panic")
+
+/-- the specification's resolution of an include path: against the directory of the including
+    file (absolute paths from the root), component by component as the OS does -/
+def specResolve (fs : FS) (file : Key) (ipath : List UInt8) : Option (Key × List UInt8) :=
+  if ipath.isEmpty then none else
+  let abs := ipath.head? == some 47
+  let startAbs := if abs then true else file.1
+  let startDir := if abs then [] else file.2.dropLast.reverse
+  match walk fs startAbs (splitComps ipath) startDir with
+  | some comps =>
+    let last := (splitComps ipath).getLast?.getD []
+    if last.isEmpty || last == [46] || last == [46, 46] then none
+    else match fs.find? (fun e => keyComps e.1 == (startAbs, comps)) with
+      | some e => some ((startAbs, comps), e.2)
+      | none => none
+  | none => none
+
+def showSpecKind : QV.Spec.Inc.SErr → String
+  | .Syntax _ => "Syntax"
+  | .IncludesTooDeep => "IncludesTooDeep"
+  | .FailedToOpenInclude => "FailedToOpenInclude"
+  | .Stuck => "ModelStuck"
+
+def showSpecYields (ys : List (QV.Spec.Inc.SY Key)) : String :=
+  if ys.any (fun y => match y with | .panic => true | _ => false) then "panic"
+  else joinItems (ys.map fun
+    | .record k line r => s!"rec:{showKey k}:{line}:{showRec r}"
+    | .err k kind line => s!"err:{showSpecKind kind}@{showKey k}:{line}"
+    | .panic => "panic")
+
+def recsOfFs (ys : List FsYield) : List String :=
+  ys.map fun
+    | .record _ _ r => "rec:" ++ showRec r
+    | .err _ _ _ => "err"
+    | .panic => "panic"
+
+def recsOfMem (ys : List Yield) : List String :=
+  ys.map fun
+    | .item (.record _ r) => "rec:" ++ showRec r
+    | .item (.incl _ _ _) => "inc"
+    | .err _ => "err"
+    | .panic => "panic"
+
+def includeHandler : Handler := fun op args =>
+  match op, args with
+  | "inc", [d, fsS, mainS] =>
+    match natArg d, parseFs fsS, unhex mainS with
+    | some depth, some fs, some mainB =>
+      let main := mainB.toList
+      match openFile fs main, canonKey fs main with
+      | some content, some key =>
+        let m := FsParser.start main content depth
+        some (showFsYields fs (runFs (resolveFs fs) (fsBound fs) m),
+              showSpecYields (QV.Spec.Inc.readTree (specResolve fs) depth key content))
+      | _, _ => some ("open-failed", "open-failed")
+    | _, _, _ => some bad
+  | "incflat", [d, fsS, mainS, flatS] =>
+    match natArg d, parseFs fsS, unhex mainS, unhex flatS with
+    | some depth, some fs, some mainB, some flat =>
+      let main := mainB.toList
+      match openFile fs main with
+      | some content =>
+        let a := recsOfFs (runFs (resolveFs fs) (fsBound fs) (FsParser.start main content depth))
+        let b := recsOfMem (collect (Parser.new flat.toList))
+        some (if a == b then "ok same" else s!"differ {a.length} {b.length}", "ok same")
+      | none => some ("open-failed", "open-failed")
+    | _, _, _, _ => some bad
+  | _, _ => none
 
 end QV.Driver
